@@ -37,6 +37,28 @@ const OPEN_SYM: &[&str] = &["=", "+", "-", "/", "<", ">", "<=", ">=", "^=", "~="
 // U+012F / U+013B ; U+013D = U+0127 quote U+0125 percent U+0126 ampersand - a `char as u8` comparison would take them for it)
 const WORDS: &[&str] = &["a", "abc", "x1", "some", "text", "v_1", "é", "data", "q2", "\u{128}a", "\u{129}", "\u{12c}b", "\u{12f}c", "\u{13b}d", "\u{13d}x", "\u{127}q", "\u{125}m", "\u{126}v", "\u{428}\u{430}\u{433}"];
 
+/// every open-code keyword (from the names of the compiled token types), lower case, as the grammar writes them;
+/// `datalines`-like words are left out (they start a data block)
+fn all_open_keywords() -> &'static Vec<String> {
+    static V: std::sync::OnceLock<Vec<String>> = std::sync::OnceLock::new();
+    V.get_or_init(|| {
+        let mut v: Vec<String> = vec![];
+        for &t in crate::api::all_token_types() {
+            if crate::oracle::kw::is_kw(t) {
+                for k in crate::oracle::kw::keywords_of(t) {
+                    let k = k.to_ascii_lowercase();
+                    if !["datalines", "cards", "lines", "datalines4", "cards4", "lines4"].contains(&k.as_str()) {
+                        v.push(k);
+                    }
+                }
+            }
+        }
+        v.sort();
+        v.dedup();
+        v
+    })
+}
+
 impl<'a> G<'a> {
     pub fn new(data: &'a [u8]) -> G<'a> { G { u: Src::new(data), out: String::new(), marks: vec![], dels: vec![], anchors: vec![], depth: 0, feats: vec![], in_macro: 0, str_regions: vec![], last_int: false, max_depth: 0, open_parens: 0, open_calls: 0, open_text: 0, force_nonword: false, lenient: false, in_stmt_expr: false, trunc_points: vec![] } }
     fn d_inc(&mut self) { self.depth += 1; if self.depth > self.max_depth { self.max_depth = self.depth; } }
@@ -140,6 +162,7 @@ impl<'a> G<'a> {
                 0 if self.u.coin(1, 5) => { self.feat("composite-open-code-name"); let s = self.pick(&["out_", "lib.", "x", "v_", "t"]); self.p(s); self.mvar(true); if self.u.coin(1, 2) { let t = self.pick(&["_x", "y", ".z", "1"]); self.p(t); } if self.u.coin(1, 3) { self.p("%m(a)"); if self.u.coin(1, 2) { self.p("_t"); } } }
                 0 => { let s = self.pick(IDENTS); self.p(s); }
                 1 => { if self.u.coin(1, 3) { let s = self.pick(&["$char10.", "best12.2", "date9.", "$20.", "8.", "$upcase8.", "comma12.", "$fmtü5.", "$тест.", "8.2", "e8.", "$8.", "z5.", "yymmdd10.", "$hex4.", "12.", "commax12.2", "best.", "$char."]); self.p(s); } else { let s = self.pick(IDENTS); self.p(s); } }
+                2 if self.u.coin(1, 2) => { let all = all_open_keywords(); let i = self.u.below(all.len()); self.p(&all[i]); }
                 2 => { let s = self.pick(OPEN_KW); self.p(s); }
                 3 => self.number(),
                 4 => { if self.u.coin(1, 8) { self.str_with_stat(); } else { self.str_lit(); } }
